@@ -39,3 +39,5 @@ package orefafs
 //@   ensures[C05] unchanged(node.children, node.nlink, node.data, node.mode, OrefaFS.nodes, MD.string.orefafs.node, MV.string.orefafs.node)
 //@ func (*OrefaFS).Readlink
 //@   ensures[C05] unchanged(node.children, node.nlink, node.data, node.mode, OrefaFS.nodes, MD.string.orefafs.node, MV.string.orefafs.node)
+//@ func (*OrefaFS).OpenFile
+//@   ensures[C05] r1 != nil ==> unchanged(node.children, node.nlink, node.data, node.mode, OrefaFS.nodes, MD.string.orefafs.node, MV.string.orefafs.node)
